@@ -115,8 +115,3 @@ def run(tier: str, seed: int) -> int:
         "equivariance replays use powers of two (exact in floating point) and compare at 1e-7..1e-9",
     ]
     return rep.finish()
-
-
-def replay(rep_obj) -> int:
-    print(rep_obj.get("what"))
-    return 1
